@@ -489,6 +489,8 @@ mod qb {
         Scan { s: u32, e: u32, sap: Vec<u64>, orc: Vec<u64>, prime: bool },
         Rescan(Vec<(u32, u32)>, ScanPriority),
         Prune(u32, Option<ScanPriority>),
+        /// truncate_to_chain_state at a height at or above the max scanned block (queue-only rewind)
+        Rewind(u32),
     }
 
     impl Op {
@@ -508,6 +510,7 @@ mod qb {
                     pname(*p)
                 ),
                 Op::Prune(h, r) => format!("(OpPrune {} {})", h, opt(r.map(|p| pname(p).to_string()))),
+                Op::Rewind(h) => format!("(OpTrim {})", h),
             }
         }
     }
@@ -559,6 +562,10 @@ mod qb {
                 st.wallet_mut().db_mut().queue_rescans(NonEmpty::from_vec(v).unwrap(), p)
             }),
             Op::Prune(h, r) => catch(|| st.wallet_mut().prune_scan_queue_below(BlockHeight::from(h), r).map(|_| ())),
+            Op::Rewind(h) => catch(|| {
+                st.wallet_mut()
+                    .truncate_to_chain_state(ChainState::empty(BlockHeight::from(h), BlockHash([7; 32])))
+            }),
         };
         match r {
             None => (PANIC.into(), "panic"),
@@ -648,6 +655,7 @@ fn qstep(qs: &mut QStats, st: &mut qb::St, op: &qb::Op) -> &'static str {
         qb::Op::Scan { sap, orc, .. } => if sap.is_empty() && orc.is_empty() { "scan" } else { "scan-with-notes" },
         qb::Op::Rescan(..) => "rescan",
         qb::Op::Prune(..) => "prune",
+        qb::Op::Rewind(..) => "rewind",
     };
     *qs.by_op.entry(name.into()).or_default() += 1;
     *qs.outcomes.entry(kind.into()).or_default() += 1;
@@ -660,6 +668,11 @@ fn qstep(qs: &mut QStats, st: &mut qb::St, op: &qb::Op) -> &'static str {
         post,
         sugg
     ));
+    {
+        use zcash_client_backend::data_api::WalletRead;
+        let ch = st.wallet().chain_height().ok().flatten().map(|h| u32::from(h).to_string());
+        case(format!("QChain {} {}", list(now.iter().map(|r| r.coq())), opt(ch)));
+    }
     kind
 }
 
@@ -680,6 +693,39 @@ fn part_b_low(qs: &mut QStats, a: &Args) {
         qs.histories += 1;
         for t in [act + 100, act + 489, act + 490, act + 498, act + 499, act + 500] {
             qstep(qs, &mut st, &qb::Op::Tip(t));
+        }
+        // rewinds landing exactly on every boundary of the rows queued above the scanned region
+        // (end-1, end, start-1, start, inside), each followed by a lower and a higher tip update
+        {
+            let mut st = qb::build(0, None);
+            qs.histories += 1;
+            let b = act;
+            let top = b + 200;
+            qstep(qs, &mut st, &qb::Op::Tip(top));
+            qstep(qs, &mut st, &qb::Op::Scan { s: b, e: b + 100, sap: vec![], orc: vec![], prime: true });
+            let ms = b + 99;
+            let setup = |qs: &mut QStats, st: &mut qb::St| {
+                qstep(qs, st, &qb::Op::Tip(top));
+                qstep(qs, st, &qb::Op::Rescan(vec![(b + 120, b + 140)], ScanPriority::FoundNote));
+                qstep(qs, st, &qb::Op::Rescan(vec![(b + 160, b + 170)], ScanPriority::OpenAdjacent));
+            };
+            setup(qs, &mut st);
+            // stored rows now: Scanned b..b+100, Historic ..120, FoundNote ..140, Historic ..160, OpenAdjacent ..170, Historic ..201
+            let mut targets: Vec<u32> = vec![];
+            for r in qb::queue(st.wallet().conn()) {
+                for t in [r.s.saturating_sub(1), r.s, r.s + 1, r.e.saturating_sub(2), r.e - 1, r.e] {
+                    if t >= ms && t <= top + 1 && !targets.contains(&t) {
+                        targets.push(t);
+                    }
+                }
+            }
+            targets.sort();
+            for t in targets {
+                qstep(qs, &mut st, &qb::Op::Rewind(t));
+                qstep(qs, &mut st, &qb::Op::Tip(t.saturating_sub(3).max(ms)));
+                qstep(qs, &mut st, &qb::Op::Tip(t + 2));
+                setup(qs, &mut st);
+            }
         }
         // prune with a non-retained row that ends exactly at the pruning height and is followed by an Ignored row
         {
@@ -865,9 +911,12 @@ fn part_b_loop(qs: &mut QStats, a: &Args) {
                 break;
             }
             // occasionally a rewind (reorg handling), at most twice per history
-            if rewinds < 2 && rng.chance(1, 6) {
+            if rewinds < 2 && (rewinds == 0 || rng.chance(1, 6)) {
                 if let Some(ms) = qb::max_scanned(&st) {
-                    let target = ms.saturating_sub(rng.range(0, 5) as u32).max(act);
+                    // the first rewind lands exactly on the last scanned block (the end of the Scanned row,
+                    // with ranges queued above it); later ones a few blocks below
+                    let back = if rewinds == 0 { 0 } else { rng.range(0, 5) as u32 };
+                    let target = ms.saturating_sub(back).max(act);
                     let c = qb::ctx(&st);
                     let pre = qb::queue(st.wallet().conn());
                     let r = catch(|| st.wallet_mut().truncate_to_height(BlockHeight::from(target)));
